@@ -44,6 +44,8 @@ mod cid_support;
 use cid_support::*;
 
 const MAXN: usize = 4;
+/// concrete ID lengths of the registered entries (LocalId::MIN_LEN = 4)
+const ID_LEN: [usize; MAXN] = [4, 5, 4, 5];
 
 // ---------------------------------------------------------------- time
 // Symbolic Timestamp arithmetic is what makes these harnesses blow up (measured: on_timeout with
@@ -54,8 +56,12 @@ const MAXN: usize = 4;
 // just not elapsed / far ahead).
 const NOW_US: u64 = 30_000;
 const GRID_US: [u64; 4] = [0, 30_999, 31_000, 60_000];
+// (compile-time constants: a run-time Duration::from_secs came back with nondeterministic
+// nanoseconds under Kani 0.68 in this crate)
+const D40: Duration = Duration::from_secs(40);
+const D30: Duration = Duration::from_secs(30);
 fn t_us(us: u64) -> Timestamp {
-    NoopClock.get_time() + Duration::from_secs(40) + Duration::from_micros(us)
+    NoopClock.get_time() + D40 + Duration::from_micros(us)
 }
 fn now() -> Timestamp {
     t_us(NOW_US)
@@ -94,6 +100,7 @@ const S_REMOVAL: u8 = 5; // PendingRemoval(removal time)
 struct E {
     idb: [u8; 5],
     idl: usize,
+    id: connection::LocalId,
     seq: u32,
     rt: Option<u8>,
     st: u8,
@@ -103,13 +110,13 @@ struct E {
 }
 
 impl E {
-    fn any() -> E {
+    /// `idl`: concrete ID length (a symbolic length makes every copy/compare of the ID a
+    /// symbolic-size memcpy/memcmp)
+    fn any(idl: usize) -> E {
         // (arrays are drawn through integers: no loops, the unwind bound stays small)
         let idw: u64 = kani::any();
         let w = idw.to_le_bytes();
         let idb: [u8; 5] = [w[0], w[1], w[2], w[3], w[4]];
-        let idl: usize = kani::any();
-        kani::assume(idl >= 4 && idl <= 5);
         let seq: u32 = kani::any();
         let has_rt: bool = kani::any();
         let rt = any_grid();
@@ -124,6 +131,7 @@ impl E {
         E {
             idb,
             idl,
+            id: connection::LocalId::try_from_bytes(&idb[..idl]).unwrap(),
             seq,
             rt: if has_rt { Some(rt) } else { None },
             st,
@@ -133,7 +141,7 @@ impl E {
         }
     }
     fn id(&self) -> connection::LocalId {
-        connection::LocalId::try_from_bytes(&self.idb[..self.idl]).unwrap()
+        self.id
     }
     fn status(&self) -> LocalIdStatus {
         match self.st {
@@ -179,6 +187,7 @@ struct Pre {
     next: u32,
     rpt: u32,
     limit: u8,
+    warm: bool,
 }
 
 impl Pre {
@@ -321,11 +330,11 @@ fn new_registry(rotate: bool) -> LocalIdRegistry {
 }
 
 fn any_registry(n: usize) -> (LocalIdRegistry, Pre) {
-    let first = E::any();
+    let first = E::any(ID_LEN[0]);
     let mut es = [first; MAXN];
     let mut i = 1;
     while i < n {
-        es[i] = E::any();
+        es[i] = E::any(ID_LEN[i]);
         i += 1;
     }
     let next: u32 = kani::any();
@@ -333,7 +342,7 @@ fn any_registry(n: usize) -> (LocalIdRegistry, Pre) {
     let limit: u8 = kani::any();
     let rotate: bool = kani::any();
     let warm: bool = kani::any();
-    let pre = Pre { n, e: es, next, rpt, limit };
+    let pre = Pre { n, e: es, next, rpt, limit, warm };
     kani::assume(pre.valid());
 
     let mut reg = new_registry(rotate);
@@ -453,7 +462,7 @@ fn timeout_body(n: usize) {
                 // retired by timeout: the peer is asked to retire it (retire_prior_to covers it) and
                 // it stays routable for another EXPIRATION_BUFFER
                 assert!(info.sequence_number == e.seq && info.id == e.id());
-                assert!(info.status == PendingRetirementConfirmation(Some(now + Duration::from_secs(30))));
+                assert!(info.status == PendingRetirementConfirmation(Some(now + D30)));
                 assert!(reg.retire_prior_to > e.seq);
                 if want_rpt < e.seq + 1 {
                     want_rpt = e.seq + 1;
@@ -509,20 +518,11 @@ fn verif_local_id_timeout_n3() {
 #[cfg_attr(kani, kani::unwind(6))]
 #[cfg_attr(kani, kani::stub(LocalIdMap::try_insert, stub_try_insert))]
 #[cfg_attr(kani, kani::stub(LocalIdMap::remove, stub_remove))]
+#[cfg_attr(kani, kani::stub(LocalIdRegistry::unregister_expired_ids, stub_unregister_expired_ids))]
 fn verif_probe_registry_new() {
-    let (reg, pre) = any_registry(3);
-    kani::cover!(reg.registered_ids.len() == 3 && pre.rpt > 0, "built");
-    core::mem::forget(reg);
-}
-
-#[cfg_attr(kani, kani::proof)]
-#[cfg_attr(kani, kani::unwind(6))]
-#[cfg_attr(kani, kani::stub(LocalIdMap::try_insert, stub_try_insert))]
-#[cfg_attr(kani, kani::stub(LocalIdMap::remove, stub_remove))]
-fn verif_probe_b() {
-    let (reg, pre) = any_registry(3);
-    kani::cover!(reg.registered_ids.len() == 3 && pre.rpt > 0, "built");
-    assert_inv(&reg);
+    let (mut reg, pre) = any_registry(3);
+    reg.on_timeout(now());
+    kani::cover!(reg.registered_ids.len() == 3 && pre.rpt < reg.retire_prior_to, "ran");
     core::mem::forget(reg);
 }
 
@@ -531,8 +531,21 @@ fn verif_probe_b() {
 #[cfg_attr(kani, kani::stub(LocalIdMap::try_insert, stub_try_insert))]
 #[cfg_attr(kani, kani::stub(LocalIdMap::remove, stub_remove))]
 #[cfg_attr(kani, kani::stub(LocalIdRegistry::unregister_expired_ids, stub_unregister_expired_ids))]
+fn verif_probe_b() {
+    timeout_body(2);
+}
+
+#[cfg_attr(kani, kani::proof)]
+#[cfg_attr(kani, kani::unwind(6))]
+#[cfg_attr(kani, kani::stub(LocalIdMap::try_insert, stub_try_insert))]
+#[cfg_attr(kani, kani::stub(LocalIdMap::remove, stub_remove))]
+#[cfg_attr(kani, kani::stub(LocalIdRegistry::unregister_expired_ids, stub_unregister_expired_ids))]
 fn verif_probe_c() {
-    timeout_body(1);
+    let (mut reg, pre) = any_registry(3);
+    kani::assume(!pre.warm);
+    reg.on_timeout(now());
+    kani::cover!(reg.registered_ids.len() == 3 && pre.rpt < reg.retire_prior_to, "ran");
+    core::mem::forget(reg);
 }
 
 // ---- generated by tools/fixup.py: native replay entry ----
